@@ -25,6 +25,7 @@ int main(int argc, char **argv) {
         double per = 12; for (int q = 0; q < res; q++) per *= 2.6458; if (per > (quick ? 2500 : 20000)) per = quick ? 2500 : 20000;
         cv_seam_cells(&cv, res, (int)per);
         cv_random_cells(&cv, res, quick ? 200 : 3000);
+        if (res >= 9) cv_icosa_band_cells(&cv, res, quick ? (res >= 14 ? 3 : 1) : 8);      /* face selection either side of the edges */
         qsort(cv.v, cv.n, 8, cmp_u64);
         for (int64_t i = 0; i < cv.n; i++) if (i == 0 || cv.v[i] != cv.v[i - 1]) {
             ev_rt(cv.v[i]);
